@@ -99,6 +99,12 @@ check("C14", "exploration", "property-based testing (Hypothesis) of operation se
       "Public API only. Caches of the code under test are cleared before every generated case so that failures reproduce from the saved case.",
       "DESIGN.md section 2, C14")
 
+check("C15", "exploration", "model-based testing: exhaustive operation sequences over a small alphabet (length <= 4 quick / <= 6 thorough) plus Hypothesis-generated sequences up to 40 operations, against an in-memory model",
+      "Every sequence of create / set / update over the alphabet is executed on the real file tree and on a model (existing set + overlay per sidecar class); return values, SpilExceptions, "
+      "'failed call changes nothing' (byte snapshot), existence, search membership, ancestors and data read by a NEW Getter are compared after every step; sampled sequences are re-read in a freshly forked post-import process.",
+      "Trusted: the in-memory model in vp/checks/c15.py, vp/reffind.py for constants-backed levels. Reserved attribute keys excluded.",
+      "DESIGN.md section 2, C15")
+
 NOT_APPLICABLE = {
 }
 
